@@ -25,7 +25,7 @@ import (
 	"verif/ulib"
 )
 
-var kinds = []string{"local", "cell", "idxcell", "incmap", "hashmap", "inchan", "outchan", "shared", "file", "mbox_out", "mbox_in", "persistent"}
+var kinds = []string{"local", "cell", "idxcell", "incmap", "hashmap", "inchan", "outchan", "shared", "file", "mbox_out", "mbox_in", "persistent", "crdt", "twopc"}
 
 type resInst struct {
 	*ulib.ResDecl
@@ -35,7 +35,39 @@ type resInst struct {
 	isLocal            bool
 	strVals            bool
 	addr               string
+	// readCheck, if set, judges a read instead of string equality with the model (resources
+	// whose value also reflects what peers did); it returns what it expected on a mismatch
+	readCheck func(got tla.Value, modelWant string) (bool, string)
+	// afterCommittedRead is told every value a read returned in an attempt that committed
+	afterCommittedRead func(got tla.Value)
+	pendingReads       []tla.Value
 }
+
+// counterModel: a grow-only counter as the archetype that owns it sees its own part: the
+// committed increments plus the increments of the attempt in flight.
+type counterModel struct {
+	Committed int32
+	work      int32
+	// Totals lists the running total after each committed section that wrote (the only
+	// values of this node's part that a peer may ever observe)
+	Totals     []int32
+	Committing bool // the body of the attempt has finished and its commit is under way
+}
+
+func (m *counterModel) Begin() { m.work = 0; m.Committing = false }
+func (m *counterModel) Read(string) (string, bool) {
+	return ulib.Canon(num(m.Committed + m.work)), false
+}
+func (m *counterModel) Write(_ string, v tla.Value) { m.work += v.AsNumber() }
+func (m *counterModel) Commit() {
+	if m.work != 0 {
+		m.Committed += m.work
+		m.Totals = append(m.Totals, m.Committed)
+	}
+	m.work = 0
+	m.Committing = false
+}
+func (m *counterModel) Abort() { m.work = 0; m.Committing = false }
 
 type env struct {
 	w        *sim.World
@@ -47,6 +79,7 @@ type env struct {
 	dials    map[string]int // connections opened towards each mbox_in resource
 	srcStops []func() // sources are stopped when A reaches Done (before A's mailbox closes)
 	finals   []func()
+	preDone  []func() // run by A inside its Done section, before its resources close
 	peers    int
 	desc     []string
 }
@@ -166,6 +199,106 @@ func (e *env) addRes(kind string, i int) {
 				if got != want {
 					w.Fail("file_mismatch", "file %s holds %s, committed state is %s | %s", k, got, want, e.describe())
 				}
+			}
+		})
+	case "twopc":
+		// a variable replicated with the real two-phase-commit resource: A proposes, two passive
+		// replicas (their own resources and RPC receivers on other nodes) accept
+		e.peers++
+		ids := []string{fmt.Sprintf("tpc%d-a", i), fmt.Sprintf("tpc%d-b", i), fmt.Sprintf("tpc%d-c", i)}
+		var rs [3]distsys.ArchetypeResource
+		var rcv [3]*resources.TwoPCReceiver
+		for k := 0; k < 3; k++ {
+			k := k
+			rs[k] = resources.NewTwoPC(num(0), ids[k]+":6000", nil, tla.MakeString(ids[k]), func(r *resources.TwoPCReceiver) { rcv[k] = r })
+		}
+		for k := 0; k < 3; k++ {
+			var hs []resources.ReplicaHandle
+			for j := 0; j < 3; j++ {
+				if j != k {
+					h := resources.MakeRPCReplicaHandle(ids[j]+":6000", tla.MakeString(ids[j]))
+					hs = append(hs, &h)
+				}
+			}
+			rs[k].(*resources.TwoPCArchetypeResource).SetReplicas(hs)
+		}
+		real = rs[0]
+		ri.readable, ri.writable = true, true
+		m := ulib.NewCellModel(ulib.Canon(num(0)))
+		ri.Model = m
+		e.finals = append(e.finals, func() {
+			// every replica installed the last committed value (Commit is sent to every replica;
+			// nothing is lost on this calm network), and nothing an aborted attempt wrote
+			want, written := m.Committed[""]
+			if !written {
+				want = ulib.Canon(num(0))
+			}
+			agreed := func() bool {
+				for k := 1; k < 3; k++ {
+					var rep resources.TwoPCResponse
+					if err := rcv[k].Receive(resources.TwoPCRequest{RequestType: resources.GetState}, &rep); err != nil || ulib.Canon(rep.Value) != want {
+						return false
+					}
+				}
+				return true
+			}
+			if !w.Await(agreed, time.Minute) {
+				var got []string
+				for k := 1; k < 3; k++ {
+					var rep resources.TwoPCResponse
+					_ = rcv[k].Receive(resources.TwoPCRequest{RequestType: resources.GetState}, &rep)
+					got = append(got, fmt.Sprintf("%s (version %d)", ulib.Canon(rep.Value), rep.Version))
+				}
+				w.Fail("replica_mismatch", "replicas of the two-phase-commit variable %s hold %v, the last committed write was %s | %s", name, got, want, e.describe())
+			}
+		})
+		e.stops = append(e.stops, func() {
+			for k := 1; k < 3; k++ {
+				rs[k].Close()
+			}
+		})
+	case "crdt":
+		// a grow-only counter in the real CRDT resource, with one peer that commits (and aborts)
+		// increments of its own in distinct high bits; A's own increments stay below 1<<16
+		e.peers++
+		addrs := map[int32]string{0: fmt.Sprintf("crdt%d-a:7300", i), 1: fmt.Sprintf("crdt%d-p:7300", i)}
+		interval := []time.Duration{5 * time.Millisecond, 50 * time.Millisecond}[w.Choose(sim.KCfg, 2)]
+		mk := func(id int32) distsys.ArchetypeResource {
+			return resources.NewCRDT(num(id), []tla.Value{num(1 - id)}, func(x tla.Value) string { return addrs[x.AsNumber()] }, resources.GCounter{},
+				resources.WithCRDTBroadcastInterval(interval), resources.WithCRDTSendTimeout(time.Second), resources.WithCRDTDialTimeout(time.Second))
+		}
+		real = mk(0)
+		ri.readable, ri.writable = true, true
+		m := &counterModel{}
+		ri.Model = m
+		ri.addr = "crdt"
+		peer := startCRDTPeer(e, name, mk, m, interval)
+		lastPeerBits := int32(0)
+		ri.readCheck = func(got tla.Value, modelWant string) (bool, string) {
+			g := got.AsNumber()
+			own, bits := g&0xffff, g>>16
+			if ulib.Canon(num(own)) != modelWant {
+				return false, modelWant + " (own part)"
+			}
+			// the peer's part: only increments of attempts that committed (or are committing), and
+			// nothing seen before is lost
+			if bits&^peer.visibleBits() != 0 {
+				return false, fmt.Sprintf("own part %s plus only committed increments of the peer (bits %b); the read carries bits %b", modelWant, peer.visibleBits(), bits)
+			}
+			if lastPeerBits&^bits != 0 {
+				return false, fmt.Sprintf("peer increments %b seen by an earlier read have disappeared (now %b)", lastPeerBits, bits)
+			}
+			return true, ""
+		}
+		ri.afterCommittedRead = func(got tla.Value) { lastPeerBits |= got.AsNumber() >> 16 }
+		// bounded delivery once updates have stopped; judged while A's resource is still open (A
+		// waits in its Done section: a replica that closes right after its last commit has left
+		// before the broadcast and promises nothing)
+		e.preDone = append(e.preDone, func() {
+			want := m.Committed
+			ok := w.Await(func() bool { return peer.lastOwn == want || peer.gone }, 20*interval+3*time.Second)
+			if !ok && !w.Failed() {
+				w.Fail("crdt_update_not_delivered", "the peer of %s reads %d for A's part %v after A's last section; A's committed increments sum to %d | %s", name, peer.lastOwn, 20*interval+3*time.Second, want, e.describe())
 			}
 		})
 	case "mbox_out":
@@ -350,6 +483,138 @@ func startSource(e *env, addr string, opts []resources.MailboxesOption, msgs []t
 	})
 }
 
+// crdtPeer is the second replica of a "crdt" resource: its own archetype commits or aborts
+// increments in distinct bits >= 16 and keeps reading; every read is judged against what A
+// has committed.
+type crdtPeer struct {
+	bitState []int // per bit: 0 in flight, 1 committing/committed, 2 aborted
+	lastOwn  int32 // A's part in the peer's latest read
+	gone     bool  // the peer's archetype has ended (run error): nothing more will be read
+}
+
+func (p *crdtPeer) visibleBits() int32 {
+	var m int32
+	for b, st := range p.bitState {
+		if st == 1 {
+			m |= 1 << b
+		}
+	}
+	return m
+}
+
+func startCRDTPeer(e *env, name string, mk func(int32) distsys.ArchetypeResource, am *counterModel, interval time.Duration) *crdtPeer {
+	w := e.w
+	p := &crdtPeer{}
+	nw := w.Choose(sim.KCfg, 4) // increments the peer tries
+	type plan struct {
+		hold  time.Duration
+		fails int
+	}
+	var plans []plan
+	for k := 0; k < nw; k++ {
+		pl := plan{hold: time.Duration(w.Choose(sim.KCfg, 3)) * interval}
+		if w.Choose(sim.KFault, 3) == 1 {
+			pl.fails = 1
+		}
+		plans = append(plans, pl)
+	}
+	stop := false
+	cur := -1
+	pos, tries := 0, 0
+	var seenOwn int32
+	rec := &ulib.Recorder{OnEvent: func(ev trace.Event) {
+		if cur >= 0 && ev.IsAbort {
+			p.bitState[cur] = 2
+		}
+		cur = -1
+	}}
+	judge := func(v int32, when string) {
+		own, bits := v&0xffff, v>>16
+		// A's part: the total after some committed section of A, or of the one committing now;
+		// never a value that includes increments of an attempt that is in flight or aborted
+		ok := own == 0
+		for _, t := range am.Totals {
+			if own == t {
+				ok = true
+			}
+		}
+		if am.Committing && own == am.Committed+am.work {
+			ok = true
+		}
+		if !ok {
+			w.Fail("crdt_peer_saw_uncommitted", "%s: the peer of %s reads %d for A's part; A's committed sections give the totals %v (committing now: %v, would give %d): the read contains increments of an attempt that did not commit | %s", when, name, own, am.Totals, am.Committing, am.Committed+am.work, e.describe())
+		}
+		if own < seenOwn {
+			w.Fail("crdt_peer_lost_state", "%s: the peer of %s reads %d for A's part after having read %d | %s", when, name, own, seenOwn, e.describe())
+		}
+		seenOwn = own
+		p.lastOwn = own
+		for b, st := range p.bitState {
+			if st == 2 && bits&(1<<b) != 0 {
+				w.Fail("crdt_aborted_increment_visible", "%s: the peer of %s reads its own aborted increment (bit %d) | %s", when, name, b, e.describe())
+			}
+		}
+	}
+	arch := distsys.MPCalArchetype{
+		Name: "P", Label: "P.l", RequiredRefParams: []string{"P.c"},
+		JumpTable: distsys.MakeMPCalJumpTable(
+			distsys.MPCalCriticalSection{Name: "P.l", Body: func(iface distsys.ArchetypeInterface) error {
+				if stop {
+					return iface.Goto("P.Done")
+				}
+				c, err := iface.RequireArchetypeResourceRef("P.c")
+				if err != nil {
+					return err
+				}
+				cur = -1
+				if pos < len(plans) {
+					pl := plans[pos]
+					b := len(p.bitState)
+					p.bitState = append(p.bitState, 0)
+					cur = b
+					if err := iface.Write(c, nil, num(1<<(16+b))); err != nil {
+						return err
+					}
+					if pl.hold > 0 {
+						w.Sleep(pl.hold)
+					}
+					if tries < pl.fails {
+						tries++
+						return distsys.ErrCriticalSectionAborted
+					}
+					p.bitState[b] = 1
+					pos, tries = pos+1, 0
+					return iface.Goto("P.l")
+				}
+				w.Sleep(interval)
+				v, err := iface.Read(c, nil)
+				if err != nil {
+					return err
+				}
+				judge(v.AsNumber(), "read section of the peer")
+				return iface.Goto("P.l")
+			}},
+			distsys.MPCalCriticalSection{Name: "P.Done", Body: func(distsys.ArchetypeInterface) error { return distsys.ErrDone }},
+		),
+		ProcTable: distsys.MakeMPCalProcTable(),
+		PreAmble:  func(distsys.ArchetypeInterface) {},
+	}
+	delay := time.Duration(w.Choose(sim.KCfg, 3)) * interval
+	w.Go("crdt-peer", func() {
+		if delay > 0 {
+			w.Sleep(delay)
+		}
+		res := mk(1)
+		ctx := distsys.NewMPCalContext(tla.MakeString("peer-"+name), arch, distsys.EnsureArchetypeRefParam("c", res), distsys.SetTraceRecorder(rec))
+		if err := ctx.Run(); err != nil {
+			w.Fail("run_error", "the peer of %s: Run returned %v | %s", name, err, e.describe())
+		}
+		p.gone = true
+	})
+	e.stops = append(e.stops, func() { stop = true })
+	return p
+}
+
 func (e *env) describe() string { return strings.Join(e.desc, " ; ") }
 
 func (e *env) genProgram() {
@@ -457,6 +722,7 @@ func scenario(w *sim.World) {
 		totalAttempts++
 		w.Event("A begin attempt of s%d", s)
 		for _, r := range e.res {
+			r.pendingReads = nil
 			r.Model.Begin()
 			if r.Faulty != nil {
 				r.Faulty.Arm(ulib.FaultPlan{})
@@ -479,7 +745,13 @@ func scenario(w *sim.World) {
 				r.Model.Abort()
 			} else {
 				r.Model.Commit()
+				if r.afterCommittedRead != nil {
+					for _, v := range r.pendingReads {
+						r.afterCommittedRead(v)
+					}
+				}
 			}
+			r.pendingReads = nil
 		}
 		if ev.IsAbort {
 			w.Probe("attempt_aborted")
@@ -554,7 +826,12 @@ func scenario(w *sim.World) {
 					if blocked {
 						w.Fail("read_invented_value", "read of %s%s returned %s although every offered input had been consumed by committed sections | %s", r.Name, key, ulib.Canon(got), e.describe())
 					}
-					if ulib.Canon(got) != want {
+					if r.readCheck != nil {
+						if ok, exp := r.readCheck(got, want); !ok {
+							w.Fail("read_mismatch", "section s%d op %d: read of %s%s returned %s; expected %s | %s", s, i, r.Name, key, ulib.Canon(got), exp, e.describe())
+						}
+						r.pendingReads = append(r.pendingReads, got)
+					} else if ulib.Canon(got) != want {
 						if q, ok := r.Model.(*ulib.InQueueModel); ok && r.Kind == "mbox_in" {
 							// a LATER committed message of the sender obtained before an earlier one,
 							// after the sender went over to a new connection: known finding (C06)
@@ -596,6 +873,11 @@ func scenario(w *sim.World) {
 			if s+1 < len(e.secs) {
 				next = fmt.Sprintf("A.s%d", s+1)
 			}
+			for _, r := range e.res {
+				if cm, ok := r.Model.(*counterModel); ok {
+					cm.Committing = true // unless a pre-commit refuses, this attempt's increments become visible from here on
+				}
+			}
 			return iface.Goto(next)
 		}
 	}
@@ -611,6 +893,9 @@ func scenario(w *sim.World) {
 			sim.Yield()
 		}
 		e.srcStops = nil
+		for _, f := range e.preDone {
+			f()
+		}
 		return distsys.ErrDone
 	}})
 	var req []string
